@@ -67,6 +67,10 @@ def run_case(case):
     res["S"], res["K"] = prog["S"], prog["K"]
     res["K0"] = [i + 1 for i, l in enumerate(prog["main"].splitlines()) if l.rstrip().endswith("#K0")]
     res["kind"] = prog["kind"] if kk not in tc.CUT_SINKS else "cut"
+    if "otherfield" in chain and res["kind"] == "cut" and kk not in tc.CUT_SINKS and not ({"otherobj", "othervar", "otherarg"} & set(chain)):
+        # the statement allows imprecision in flow and context and forbids flows through an unrelated *object or variable*; it does not
+        # name fields of the same object (that is C09's subject), so a flow into another field of the tainted object is not judged here
+        res["kind"] = "other-field-of-same-object"
     res["variant_sink_line"] = snks[0].get("line_num") if snks and variant == "sink-line-first-site" else None
     res["allowed_by_rules"] = allowed_by_rules
     res["feats"] = sorted(prog["feats"])
